@@ -374,6 +374,7 @@ pub fn show_ev(codec: &FixCodec, ev: &Ev) -> String {
         Ev::ChangeId(n) => format!("change_identity[{}]", n.show()),
         Ev::Reuse => "reuse_down_identity".into(),
         Ev::SetConfig(c) => format!("set_config[{c:?}]"),
+        Ev::AddBroadcast(d) if d.len() > 24 => format!("add_broadcast[{:?}.. ({} bytes)]", &d[..8], d.len()),
         Ev::AddBroadcast(d) => format!("add_broadcast[{d:?}]"),
         Ev::Sleep(s) => format!("sleep[{s}ms]"),
     }
